@@ -140,6 +140,11 @@ func getAlignmentDims(f io.Reader) (int, int, error) {
 	for s.Scan() {
 		line := s.Text()
 
+		// skip empty lines
+		if len(line) == 0 {
+			continue
+		}
+
 		if string(line[0]) == ">" {
 			n++
 		}
@@ -244,6 +249,20 @@ func Consensus(f io.Reader) (FastaRecord, error) {
 	return consensus, err
 }
 
+// errEmptyHeader is returned for a header line that has no sequence ID, i.e. nothing but
+// whitespace after the ">"
+var errEmptyHeader = errors.New("badly formatted fasta file: header line without a sequence ID")
+
+// idFromHeader returns the sequence ID, which is the first whitespace-delimited field of
+// the header line (without its ">")
+func idFromHeader(description string) (string, error) {
+	fields := strings.Fields(description)
+	if len(fields) == 0 {
+		return "", errEmptyHeader
+	}
+	return fields[0], nil
+}
+
 // ReadAlignment reads an alignment in fasta format to a channel of FastaRecord structs
 func ReadAlignment(f io.Reader, chnl chan FastaRecord, cErr chan error, cdone chan bool) {
 
@@ -263,6 +282,11 @@ func ReadAlignment(f io.Reader, chnl chan FastaRecord, cErr chan error, cdone ch
 	for s.Scan() {
 		line := s.Text()
 
+		// skip empty lines
+		if len(line) == 0 {
+			continue
+		}
+
 		if first {
 
 			if len(line) == 0 || string(line[0]) != ">" {
@@ -271,7 +295,11 @@ func ReadAlignment(f io.Reader, chnl chan FastaRecord, cErr chan error, cdone ch
 			}
 
 			description = line[1:]
-			id = strings.Fields(description)[0]
+			id, err = idFromHeader(description)
+			if err != nil {
+				cErr <- err
+				return
+			}
 
 			first = false
 
@@ -289,7 +317,11 @@ func ReadAlignment(f io.Reader, chnl chan FastaRecord, cErr chan error, cdone ch
 			counter++
 
 			description = line[1:]
-			id = strings.Fields(description)[0]
+			id, err = idFromHeader(description)
+			if err != nil {
+				cErr <- err
+				return
+			}
 			seqBuffer = ""
 
 		} else {
@@ -355,6 +387,11 @@ func ReadEncodeAlignment(f io.Reader, hardGaps bool, chnl chan EncodedFastaRecor
 	for s.Scan() {
 		line = s.Bytes()
 
+		// skip empty lines
+		if len(line) == 0 {
+			continue
+		}
+
 		if first {
 
 			if len(line) == 0 || line[0] != '>' {
@@ -363,7 +400,11 @@ func ReadEncodeAlignment(f io.Reader, hardGaps bool, chnl chan EncodedFastaRecor
 			}
 
 			description = string(line[1:])
-			id = strings.Fields(description)[0]
+			id, err = idFromHeader(description)
+			if err != nil {
+				cErr <- err
+				return
+			}
 
 			first = false
 
@@ -381,7 +422,11 @@ func ReadEncodeAlignment(f io.Reader, hardGaps bool, chnl chan EncodedFastaRecor
 			counter++
 
 			description = string(line[1:])
-			id = strings.Fields(description)[0]
+			id, err = idFromHeader(description)
+			if err != nil {
+				cErr <- err
+				return
+			}
 			seqBuffer = make([]byte, 0)
 
 		} else {
@@ -460,6 +505,11 @@ func ReadEncodeScoreAlignment(f io.Reader, hardGaps bool, chnl chan EncodedFasta
 	for s.Scan() {
 		line = s.Bytes()
 
+		// skip empty lines
+		if len(line) == 0 {
+			continue
+		}
+
 		if first {
 
 			if len(line) == 0 || line[0] != '>' {
@@ -468,7 +518,11 @@ func ReadEncodeScoreAlignment(f io.Reader, hardGaps bool, chnl chan EncodedFasta
 			}
 
 			description = string(line[1:])
-			id = strings.Fields(description)[0]
+			id, err = idFromHeader(description)
+			if err != nil {
+				cErr <- err
+				return
+			}
 
 			first = false
 
@@ -490,7 +544,11 @@ func ReadEncodeScoreAlignment(f io.Reader, hardGaps bool, chnl chan EncodedFasta
 			counter++
 
 			description = string(line[1:])
-			id = strings.Fields(description)[0]
+			id, err = idFromHeader(description)
+			if err != nil {
+				cErr <- err
+				return
+			}
 			seqBuffer = make([]byte, 0)
 			score = 0
 			for i := range counting {
@@ -574,6 +632,11 @@ func ReadEncodeAlignmentToList(f io.Reader, hardGaps bool) ([]EncodedFastaRecord
 	for s.Scan() {
 		line = s.Bytes()
 
+		// skip empty lines
+		if len(line) == 0 {
+			continue
+		}
+
 		if first {
 
 			if len(line) == 0 || line[0] != '>' {
@@ -581,7 +644,10 @@ func ReadEncodeAlignmentToList(f io.Reader, hardGaps bool) ([]EncodedFastaRecord
 			}
 
 			description = string(line[1:])
-			id = strings.Fields(description)[0]
+			id, err = idFromHeader(description)
+			if err != nil {
+				return []EncodedFastaRecord{}, err
+			}
 
 			first = false
 
@@ -598,7 +664,10 @@ func ReadEncodeAlignmentToList(f io.Reader, hardGaps bool) ([]EncodedFastaRecord
 			counter++
 
 			description = string(line[1:])
-			id = strings.Fields(description)[0]
+			id, err = idFromHeader(description)
+			if err != nil {
+				return []EncodedFastaRecord{}, err
+			}
 			seqBuffer = make([]byte, 0)
 
 		} else {
